@@ -4,6 +4,7 @@
 (* call, its arguments and what was observed; the predicates below are the specification.   *)
 (*   C05  Reject      a dimensionally incompatible call raised a units/type error and the    *)
 (*                    registry digest and the operands' projections are unchanged            *)
+(*        Refused     an operation the library does not support at all between values of different dimensions raised something and changed nothing *)
 (*   C07  Intern      a repeated request returned the identical object; equal requests give  *)
 (*                    equal descriptors and hashes, different requests unequal quantities    *)
 (*        Resolves    a category-only request gives the category's default unit, a unit+category request that unit, whatever came before *)
@@ -23,6 +24,7 @@ Init == l = 0
 UnitsOrType == {"UNITS", "TYPE"}
 Judge(ev) ==
   CASE ev.op = "Reject"    -> ev.family \in UnitsOrType /\ ev.reg_pre = ev.reg_post /\ ev.ops_pre = ev.ops_post
+    [] ev.op = "Refused"   -> ev.family # "ok" /\ ev.reg_pre = ev.reg_post /\ ev.ops_pre = ev.ops_post      \* two value classes mixed in one sum (Array + Scalar): not supported at all - whatever is raised, no value comes back
     [] ev.op = "Accept"    -> ev.family = "ok"                       \* the exemptions: dimensionless / Unknown operands
     [] ev.op = "Intern"    -> ev.id1 = ev.id2 /\ ev.desc1 = ev.desc2 /\ ev.hash1 = ev.hash2
     [] ev.op = "SameReq"   -> ev.eq /\ ~ev.ne /\ ev.hash1 = ev.hash2 /\ ev.desc1 = ev.desc2
